@@ -326,10 +326,9 @@ func main() {
 	r := common.NewRand(c.Seed)
 	thorough := c.Thorough() || c.Mode == "search"
 	maxLen := 4
-	enumKinds := kinds[:6] // quick: exhaustive over six kinds
+	enumKinds := kinds[:6] // exhaustive over six kinds
 	if thorough {
-		maxLen = 5
-		enumKinds = kinds
+		maxLen = 6
 	}
 	// exhaustive histories of length 0..maxLen over the response kinds; start tx and quote rotate
 	idx := 0
@@ -351,6 +350,10 @@ func main() {
 		}
 	}
 	rec(nil)
+	if thorough { // and once more, up to length 4, with the bad-txid batch as a seventh kind
+		maxLen, enumKinds = 4, kinds
+		rec(nil)
+	}
 	// random histories with the remaining kinds, exact funding, more start shapes
 	n := 500
 	if thorough {
@@ -403,6 +406,6 @@ func main() {
 		}
 		fundCase(kind, s, q, hist, hyp)
 	}
-	c.Stats.Rule = "exhaustive supplier histories of length 0..4 (thorough 0..5) over the response kinds {empty batch, one under-funding UTXO, one over-funding UTXO, 2..3 UTXOs, ErrNoUTXO (wrapped), other error} (thorough: + a batch with a 31/33/0-byte txid in the middle), each with a start transaction (no inputs / a small unsigned input / nothing at all / already covered / data output and a signed input / three payments) and a quote (9 quotes: 1/20..50 sat/byte, unequal std/data) in rotation; UTXO values scale with the cost of an input at the quote; plus random histories of length 0..6 adding nil / non-P2PKH / inscription locking scripts, bad txids and a UTXO worth the exact deficit +-1, missing fee type, zero denominator, nil previous script in the start transaction, outputs near 2^64. A used-up history answers ErrNoUTXO. distinct = distinct (start tx, quote, consumed part of the history); non-trivial = the supplier was called at least once"
+	c.Stats.Rule = "exhaustive supplier histories of length 0..4 (thorough 0..6) over the response kinds {empty batch, one under-funding UTXO, one over-funding UTXO, 2..3 UTXOs, ErrNoUTXO (wrapped), other error} (thorough: again to length 4 with a batch carrying a 31/33/0-byte txid in the middle as a seventh kind), each with a start transaction (no inputs / a small unsigned input / nothing at all / already covered / data output and a signed input / three payments) and a quote (9 quotes: 1/20..50 sat/byte, unequal std/data) in rotation; UTXO values scale with the cost of an input at the quote; plus random histories of length 0..6 adding nil / non-P2PKH / inscription locking scripts, bad txids and a UTXO worth the exact deficit +-1, missing fee type, zero denominator, nil previous script in the start transaction, outputs near 2^64. A used-up history answers ErrNoUTXO. distinct = distinct (start tx, quote, consumed part of the history); non-trivial = the supplier was called at least once"
 	c.Finish()
 }
